@@ -1,4 +1,4 @@
 SPECIFICATION Spec
 CONSTANT Mod = 0
-INVARIANTS C02_Drained C02_Drained_MsgExceedsWindow C02_WithinBound C01_Prefix C01_MsgBoundaries C04_RcvQueueBounded C04_RcvBufBounded C04_SndWindow C04_TruthfulWnd C04_AdmitBelowWindow C04_NoAdmitAfterLoss C04_NoAdmitAfterLoss_Reinflated C05_NoPanic C10_OutSize C18_RtoBounds C18_NoRetransOnCleanPath
+INVARIANTS C02_Drained C02_Drained_MsgExceedsWindow C02_Drained_AckedHeadLingers C02_WithinBound C01_Prefix C01_MsgBoundaries C04_RcvQueueBounded C04_RcvBufBounded C04_SndWindow C04_TruthfulWnd C04_AdmitBelowWindow C04_NoAdmitAfterLoss C04_NoAdmitAfterLoss_Reinflated C05_NoPanic C10_OutSize C18_RtoBounds C18_NoRetransOnCleanPath
 CHECK_DEADLOCK FALSE
